@@ -30,6 +30,8 @@ CHECKS = {
              text="Part A: for seed files of all three formats every truncation point and every 4/8-byte header word x dictionary of extreme values is opened in-process (exhaustive), then libFuzzer mutates multi-field corruptions; the oracle inside the target demands a clean error or self-consistent metadata, readable first/last elements, no id/heap leak, no sanitizer report and a deterministic bound on header reads and peak heap relative to the file size. Part B: scripts from the other properties' generators are replayed on the sanitizer build and any UBSan/ASan report located in /repo/src is a violation. One known finding (signed overflow in size/offset arithmetic on absurd headers) is matched by statement class."),
  "C14": dict(level="exploration", section="4/C14", technique="exhaustive enumeration of mode-changing call sequences to bounded depth x probe table of every API family, against a reference automaton; Hypothesis for longer histories",
              text="All sequences of {enddef, redef, begin_indep, end_indep, close+reopen rw/ro, abort+create} up to depth 3 (quick) / 5 (thorough) from created / opened-rw / opened-ro files, each followed by ~145 probe calls from every API family with valid arguments and single argument errors; every return code must be in the documented set, permitted calls must succeed, a rejected call must leave dump, pending requests, buffer, put_size, file bytes and both mode witnesses unchanged; extra parts: isolation, k=2, safe mode, random longer histories. exhaustive:true for the enumerated depth."),
+ "C06": dict(level="exploration", section="4/C06", technique="property-based testing (Hypothesis) of layouts x redefinition deltas against a reference data model, byte identity for abort, independent decoder",
+             text="Generated layouts (1-4 fixed and 0-3 record variables, sizes 1 B - 70 KB not divisible by k, numrecs 0-6, alignments) fully written with known values, then 1-4 redefinitions (header growth small/>64 KiB, new dims, fixed and record variables incl. the 1->2 record-variable transition, new alignment/minfree, fill modes) finished by enddef/_enddef/close/abort on k=1..4 ranks; after every commit and after reopen every previously written element must read back unchanged (dumpall on all ranks + independent decoder), abort must leave the file byte-identical, abort of a create must remove the file; a separate campaign moves a k*64 MiB variable through several mover rounds."),
 }
 NA_REASON = "check under construction in this session; not yet claimed"
 checks = []
